@@ -322,7 +322,7 @@ def run_prop(ctx):
     ctx.extra["mc_counterexamples"] = mc_hits
     asfound_selftest(ctx, invs)
     # --- 2. scenarios exported from TLC (simulation walks of the I spec), replayed on the real code
-    nwalk = 150 if quick else 1500
+    nwalk = 120 if quick else 1500
     base = "MC_Overlay_2lq.cfg" if quick else "MC_Overlay_2l.cfg"     # two lowers: three-layer union rules on the real code
     cfg = gen_cfg(ctx, base, "export.cfg", known=(), invs=["Export"], consts={"MaxOps": 3})
     r = C.tlc_mc(ctx, "MC_Overlay", cfg=cfg, workers=4, timeout=1200, simulate="num=%d" % nwalk, depth=5, coverage=False, must_cover=False, xmx="3g")
@@ -348,7 +348,7 @@ def run_prop(ctx):
     ctx.sample({"scenario": scns[0], "verdict": "validated by Trace_Overlay"})
     binding_demo(ctx, run, ev)
     # --- 3. seeded random driver far beyond TLC's bounds
-    nscen = 40 if quick else 700
+    nscen = 30 if quick else 700
     tf = run.harness("random", [], env={"OVL_SCEN": nscen, "OVL_OPS": 30, "OVL_BIG": 10 if quick else 12})
     found, ev = run.judge(tf, "random driver")
     for sig, seg, scn in found[:2]:
